@@ -62,13 +62,16 @@ def endo_keys(d, upto=None):
 HINTS = {('empty_dict', 'initial'): Dict(STR, FLOAT), ('empty_dict', 'new_value'): Dict(STR, FLOAT),
          ('empty_list', 'vars_to_compute'): Tup(STR, STR), ('empty_list', 'failed'): Tup(STR, STR),
          ('empty_list', 'decoration_values'): Tup(STR, FLOAT),
-         ('empty_list', 'vtc_ix'): INT, ('empty_list', 'dv_ix'): INT, ('empty_list', 'failed_ix'): INT}
+         ('empty_list', 'vtc_ix'): INT, ('empty_list', 'dv_ix'): INT, ('empty_list', 'failed_ix'): INT,
+         ('empty_list', 'state_'): INT, ('empty_list', 'slot_'): INT}
 
-GHOST = [('vars_to_compute = []', 'vtc_ix = []\ndv_ix = []'),
-         ('vars_to_compute.append((var, eqn))', 'vtc_ix.append(len(vtc_ix))'),
-         ('failed = []', 'failed_ix = []'),
-         ('failed.append((var, eqn))', 'failed_ix.append(vtc_ix[w])'),
-         ('decoration_values.append((var, val))', 'dv_ix.append(vtc_ix[w])'),
+# ghost bookkeeping of the decorative block: vtc_ix / failed_ix / dv_ix = indices into Parser.Decoration of the pending / failed-this-round /
+# done entries; state_[j] = -1 when Decoration[j] is done, else the round in which it last failed (0: never tried); slot_[j] = where it sits
+GHOST = [('vars_to_compute = []', 'vtc_ix = []\ndv_ix = []\nstate_ = []\nslot_ = []\nround_ = 0'),
+         ('vars_to_compute.append((var, eqn))', 'vtc_ix.append(len(vtc_ix))\nstate_.append(0)\nslot_.append(len(vtc_ix) - 1)'),
+         ('failed = []', 'failed_ix = []\nround_ = round_ + 1'),
+         ('failed.append((var, eqn))', 'failed_ix.append(vtc_ix[w])\nstate_[vtc_ix[w]] = round_\nslot_[vtc_ix[w]] = len(failed_ix) - 1'),
+         ('decoration_values.append((var, val))', 'dv_ix.append(vtc_ix[w])\nstate_[vtc_ix[w]] = 0 - 1\nslot_[vtc_ix[w]] = len(dv_ix) - 1'),
          ('vars_to_compute = failed', 'vtc_ix = failed_ix')]
 
 FIN_ENDO = lambda d: 'all(isfinite(%s[%s[j][0]]) for j in range(0, len(%s)))' % (d, ENDO, ENDO)
@@ -86,8 +89,18 @@ KEPT = (allj(ENDO, 'len(self.TimeSeries[%s[j][0]]) == step + 1 and isfinite(self
 PLISTS = ' and '.join('unchanged(%s)' % l for l in (ENDO, LAG, EXO, DEC))     # the parser's lists themselves (ground equalities)
 
 TMOD = ['len.TS_SE', 'el.TS_SE', 'len.TS_XE', 'el.TS_XE', 'len.I', 'el.I', 'tyof']      # scratch lists of the decorative block
-SCRATCH0 = ('fresh(vars_to_compute) and fresh(vtc_ix) and fresh(dv_ix) and fresh(decoration_values) and fresh(initial) and '
-            'vtc_ix is not dv_ix and vars_to_compute is not decoration_values')
+SCRATCH0 = ('fresh(vars_to_compute) and fresh(vtc_ix) and fresh(dv_ix) and fresh(decoration_values) and fresh(initial) and fresh(state_) and fresh(slot_) and '
+            'vtc_ix is not dv_ix and vars_to_compute is not decoration_values and state_ is not slot_ and state_ is not vtc_ix and state_ is not dv_ix and '
+            'slot_ is not vtc_ix and slot_ is not dv_ix')
+WHERE_DONE = 'implies(state_[j] == -1, 0 <= slot_[j] and slot_[j] < len(dv_ix) and dv_ix[slot_[j]] == j)'
+COVER_L = ('len(state_) == len(%s) and len(slot_) == len(%s) and round_ >= 0 and all(%s and implies(state_[j] != -1, 0 <= state_[j] and state_[j] <= round_ and '
+           '0 <= slot_[j] and slot_[j] < len(vtc_ix) and vtc_ix[slot_[j]] == j) for j in range(0, len(%s)))' % (DEC, DEC, WHERE_DONE, DEC))
+COVER_M = ('len(state_) == len(%s) and len(slot_) == len(%s) and round_ >= 1 and all(%s and (state_[j] == -1 or (0 <= state_[j] and state_[j] <= round_)) and '
+           'implies(state_[j] == round_, 0 <= slot_[j] and slot_[j] < len(failed_ix) and failed_ix[slot_[j]] == j) and '
+           'implies(0 <= state_[j] and state_[j] < round_, w <= slot_[j] and slot_[j] < len(vtc_ix) and vtc_ix[slot_[j]] == j) for j in range(0, len(%s)))' % (DEC, DEC, WHERE_DONE, DEC))
+# (the trivially true conjunct on Decoration[j] makes a read of Decoration[j] a trigger of the quantifier)
+COVER_END = ('len(state_) == len(%s) and len(slot_) == len(%s) and all(state_[j] == -1 and 0 <= slot_[j] and slot_[j] < len(dv_ix) and dv_ix[slot_[j]] == j and '
+             '%s[j][0] == %s[j][0] for j in range(0, len(%s)))' % (DEC, DEC, DEC, DEC, DEC))
 
 
 def PENDING(lst, ix):
@@ -158,6 +171,7 @@ LOOPS = {
         ('bounds', '0 <= dk_ and dk_ <= len(%s)' % DEC),
         ('pending_is_a_prefix_copy', 'len(vars_to_compute) == dk_ and len(vtc_ix) == dk_ and len(dv_ix) == 0 and len(decoration_values) == 0 and '
                                      'all(vtc_ix[i] == i and vars_to_compute[i] == %s[i] for i in range(0, dk_))' % DEC),
+        ('bookkeeping', 'round_ == 0 and len(state_) == dk_ and len(slot_) == dk_ and all(state_[j] == 0 and slot_[j] == j for j in range(0, dk_))'),
     ]),
     10: LoopSpec(index=None, modifies=DMOD + TMOD, invariants=[
         ('frame', FR), ('parser_lists_kept', PLISTS), ('scratch', SCRATCH0),
@@ -165,6 +179,7 @@ LOOPS = {
         ('pending_entries', PENDING('vars_to_compute', 'vtc_ix')),
         ('done_entries', DONE),
         ('pending_and_done_disjoint', 'all(vtc_ix[a] != dv_ix[b] for a in range(0, len(vtc_ix)) for b in range(0, len(dv_ix)))'),
+        ('every_decorative_is_pending_or_done', COVER_L),
     ], decreases='len(vars_to_compute)'),
     11: LoopSpec(index='w', modifies=DMOD + TMOD, ghost={'HM': 'heap_now()'}, invariants=[
         ('frame', FR), ('parser_lists_kept', PLISTS), ('scratch', SCRATCH0 + ' and fresh(failed) and fresh(failed_ix) and failed is not vars_to_compute and failed_ix is not vtc_ix and '
@@ -177,6 +192,7 @@ LOOPS = {
         ('done_entries', DONE),
         ('done_and_failed_disjoint', 'all(dv_ix[a] != failed_ix[b] for a in range(0, len(dv_ix)) for b in range(0, len(failed_ix)))'),
         ('done_and_unprocessed_disjoint', 'all(dv_ix[a] != vtc_ix[q] for a in range(0, len(dv_ix)) for q in range(w, len(vtc_ix)))'),
+        ('every_decorative_is_unprocessed_failed_or_done', COVER_M),
     ]),
     12: LoopSpec(index='z', modifies=[], invariants=[]),
     # ---- appending the period ---------------------------------------------------------------------------------
@@ -198,14 +214,16 @@ LOOPS = {
         ('done_entries', DONE),
         ('decorative_appended_so_far', 'all(len(self.TimeSeries[%s[dv_ix[q]][0]]) == step + 1 and same(self.TimeSeries[%s[dv_ix[q]][0]][step], decoration_values[q][1]) for q in range(0, u))' % (DEC, DEC)),
         ('decorative_not_yet_appended', 'all(len(self.TimeSeries[%s[dv_ix[q]][0]]) == step for q in range(u, len(dv_ix)))' % DEC),
+        ('every_decorative_is_done', COVER_END),
     ]),
 }
 
 
 # cut before the append phase: what is needed from here on
-GHOST.append(('while len(vars_to_compute) > 0:', "_cut('before_append', %r, %r, %r, %r, %r)" % (
+GHOST.append(('while len(vars_to_compute) > 0:', "_cut('before_append', %r, %r, %r, %r, %r, %r)" % (
     FR + ' and ' + PLISTS, 'fresh(initial) and fresh(decoration_values) and fresh(dv_ix)',
-    endo_keys('initial') + ' and ' + lag_keys('initial'), FIN_ENDO('initial'), DONE)))
+    endo_keys('initial') + ' and ' + lag_keys('initial'), FIN_ENDO('initial'), DONE,
+    'fresh(state_) and fresh(slot_) and state_ is not slot_ and ' + COVER_END)))
 
 # cut after the fixed-point iteration: only the iterate and the frame matter for the rest
 GHOST.append(("Logger('Number of iterations: {0}'.format(num_tries), priority=3)", "_cut('after_iteration', %r, %r, %r, %r)" % (
@@ -227,7 +245,6 @@ def solvestep_contract(name=None):
                   ('tolerance_parameter_finite', 'is_none(self.ParameterErrorTolerance) or isfinite(get(self.ParameterErrorTolerance))')],
         ghost_after=[('err_toler = float(self.Parser.Err_Tolerance)', "_assume('isfinite(err_toler)')")] + GHOST,
         loops=LOOPS,
-        contract_at_calls=False,
         ensures=[
             # C10
             ('simultaneous_and_lagged_series_get_one_point', KEPT),
@@ -238,6 +255,8 @@ def solvestep_contract(name=None):
             ('reported_simultaneous_values_are_finite', allj(ENDO, 'isfinite(self.TimeSeries[%s[j][0]][step])' % ENDO)),
             ('every_computed_decorative_value_is_finite_and_appended_once',
              'all(len(self.TimeSeries[%s[dv_ix[q]][0]]) == step + 1 and isfinite(self.TimeSeries[%s[dv_ix[q]][0]][step]) for q in range(0, len(dv_ix)))' % (DEC, DEC)),
+            ('every_decorative_series_gets_one_finite_point',
+             allj(DEC, 'len(self.TimeSeries[%s[j][0]]) == step + 1 and isfinite(self.TimeSeries[%s[j][0]][step])' % (DEC, DEC))),
         ],
         # C11: only value errors (ConvergenceError is one) report arithmetic / convergence failure; NameError / other errors of the
         # user's expressions pass through; nothing is appended on any failure
